@@ -128,6 +128,16 @@ func (n *Network) CertificateResultsTx(nd *Node, chainId, nestedHeight, rootHeig
 	return n.Tx(pk, &fsm.MessageCertificateResults{Qc: qc}, 0, createdHeight, "")
 }
 
+// CreateOrderTx lists a sell order on the root chain's order book of committee chainId; the order id is
+// the first 20 bytes of the transaction hash (OrderId).
+func (n *Network) CreateOrderTx(seller crypto.PrivateKeyI, chainId, amountForSale, requested uint64, receive []byte, fee, createdHeight uint64) []byte {
+	return n.Tx(seller, &fsm.MessageCreateOrder{ChainId: chainId, AmountForSale: amountForSale, RequestedAmount: requested,
+		SellerReceiveAddress: receive, SellersSendAddress: addr(seller)}, fee, createdHeight, "")
+}
+
+// OrderId of a create-order transaction.
+func OrderId(createOrderTx []byte) []byte { return crypto.Hash(createOrderTx)[:20] }
+
 // ChangeParamTx builds a governance changeParameter transaction (uint64 value) valid for heights
 // [start, end], signed by (and naming as signer) the given key.
 func (n *Network) ChangeParamTx(signer crypto.PrivateKeyI, space, key string, value, start, end, fee, createdHeight uint64) []byte {
